@@ -3452,6 +3452,12 @@ class ServiceRequestingTransport(Transport):
             # presumably be smaller, but seems unlikely this period is going to
             # be "too long" for any code doing ssh networking...
             time.sleep(0.1)
+            if not self.active:
+                # the answer is never going to come
+                e = self.get_exception()
+                if e is None:
+                    e = SSHException("No existing session")
+                raise e
         self.auth_handler = self.get_auth_handler()
 
     def get_auth_handler(self):
